@@ -947,7 +947,9 @@ def find_distributed_partition(
     sent_ary_to_name: dict[Array, str] = {}
     for ary in sent_arrays:
         pid = stored_ary_to_part_id[ary]
-        name = gen_array_name(ary)
+        # A received array that is sent on unchanged needs a part output of its
+        # own: received names must not be part outputs.
+        name = array_name_gen() if ary in received_arrays else gen_array_name(ary)
         sent_ary_to_name[ary] = name
         name_to_output_per_part[pid][name] = ary
 
